@@ -240,7 +240,8 @@ def faults(chk, col, bindir, tier, release=False, tag=""):
         cal = T.run_probe(chk, bindir, "fault-mmap-cal%s" % tag, script, strace=True, timeout=60)
         o2, b2, info2 = T.normalise(cal)
         hm = [x for x in cal.strace if x["pid"] == info2["h"] and x["call"] == "mmap"]
-        stackm = [x for x in hm if ("%d" % T.STACK_SZ) in x["args"]]
+        ssz = info2.get("stack_sz", T.STACK_SZ)
+        stackm = [x for x in hm if (", %d," % ssz) in x["args"]]
         if len(stackm) < WARM + 2:
             if not completed(cal, info2):
                 # the code under test does not even survive the fault-free script: that run is data
@@ -260,6 +261,6 @@ def faults(chk, col, bindir, tier, release=False, tag=""):
         r.release = release
         o, b, info = col.add(r, "fault")
         inj = info.get("injected", [])
-        if completed(r, info) and (len(inj) != 1 or inj[0]["call"] != "mmap" or inj[0]["pid"] != info["h"] or ("%d" % T.STACK_SZ) not in inj[0]["args"]):
+        if completed(r, info) and (len(inj) != 1 or inj[0]["call"] != "mmap" or inj[0]["pid"] != info["h"] or (", %d," % ssz) not in inj[0]["args"]):
             raise core.ToolError("mmap fault injection did not hit exactly the owner's stack mmap: %s" % inj)
     col.flush("fault" + tag)
